@@ -141,15 +141,24 @@ def _gen_dot(rng, directed):
         if r < 0.8 or depth >= 2:
             return ["port", rng.choice(ids), rng.choice(PORTS),
                     rng.random() < 0.3]
+        inner = stmts(depth + 1)
+        if rng.random() < 0.3:
+            inner.insert(0, ["pnode", rng.choice(ids), rng.choice(PORTS),
+                             True])
         return ["subep", rng.choice(["", "", "subgraph", "subgraph e%d" %
-                                     depth]), stmts(depth + 1)]
+                                     depth]), inner]
 
     def stmts(depth):
         out = []
         for _ in range(rng.randint(0, 4)):
             r = rng.random()
             if r < 0.35:
-                out.append(["node", rng.choice(ids)])
+                if fancy and depth > 0 and rng.random() < 0.3:
+                    # a vertex declared with a port ('"2":n' is vertex 2)
+                    out.append(["pnode", rng.choice(ids), rng.choice(PORTS),
+                                rng.random() < 0.5])
+                else:
+                    out.append(["node", rng.choice(ids)])
             elif fancy and r < 0.42:
                 out.append(["attr", rng.choice(ATTRS)])
             elif fancy and r < 0.47:
@@ -200,6 +209,9 @@ def _dot_text(d):
                 lines.append("%s// %s" % (ind, x[1]))
             elif x[0] == "rawnode":
                 lines.append("%s%s;" % (ind, x[1]))
+            elif x[0] == "pnode":
+                lines.append(('%s"%d":%s;' if x[3] else "%s%d:%s;") % (
+                    ind, x[1], x[2]))
             elif x[0] == "edge":
                 lines.append("%s%s%s%s;" % (ind, ep(x[1], ind), arrow,
                                             ep(x[2], ind)))
@@ -236,6 +248,9 @@ def _dot_reference(d, gtype):
         mine = set()
         for x in st:
             if x[0] == "node":
+                mine.add(x[1])
+            elif x[0] == "pnode":
+                unusual.append("port")
                 mine.add(x[1])
             elif x[0] in ("attr", "comment"):
                 pass
@@ -852,6 +867,12 @@ def execute(case, ctx):
         if "nest" in case:
             case = dict(case, text=_nest_text(case["nest"], fmt))
             ctx.fault("deep_nesting")
+        # (the text is always derived from the structure it stands for: a
+        # minimised case cannot pair a text with another structure)
+        if "dot" in case:
+            case = dict(case, text=_dot_text(case["dot"]))
+        if "gml" in case:
+            case = dict(case, text=_gml_text(case["gml"], gtype))
         if "text" in case:
             data = case["text"].encode("utf-8")
             res = _load(data, case, fs, ctx, gtype)
